@@ -20,12 +20,25 @@ def _init(pid):
     _P = importlib.import_module("props." + pid)
 
 
+def hook_lost(e):
+    """The harness reaches a few INTERNAL names of the library (find_checker, the re-computation visitor, inspect_decorator,
+    ...).  When one of them is gone - renamed or moved by a rewrite that may be perfectly harmless - the implementation side
+    of the correspondence cannot run: that is a correspondence which no longer checks, not an observation about behaviour."""
+    if isinstance(e, (AttributeError, ImportError)):
+        msg = str(e)
+        if "module 'icontract" in msg or "from 'icontract" in msg or "No module named 'icontract" in msg:
+            return msg
+    return None
+
+
 def _run_impl_guarded(P, case):
     try:
         return P.run_impl(case)
     except common.Infra as e:
         return {"infra": str(e)}
     except BaseException as e:  # noqa: B902
+        if hook_lost(e):
+            return {"hook": hook_lost(e)}
         # the materialisers run to their end on the unchanged tree (every check runs them on every run): an exception
         # escaping from one - typically raised by the library while a well-formed program is DEFINED - is an observation
         # about the implementation, not an infrastructure problem
@@ -52,6 +65,8 @@ def _run_directed(P, case):
     except common.Infra:
         raise
     except BaseException as e:  # noqa: B902
+        if hook_lost(e):
+            return {"fails": [], "hook": hook_lost(e)}
         # the scenarios are deterministic programs that run to their end on the unchanged tree (they are run on every
         # check): one that is cut short by an exception of the library is a failed scenario, not an infrastructure problem
         import traceback
@@ -64,20 +79,22 @@ def evaluate(P, pid, tagged_cases, workers, acc):
     # statement (no model counterpart: they cover shapes the executable models do not express)
     directed = [(t, c) for t, c in tagged_cases if isinstance(c, dict) and c.get("dom") == "directed"]
     tagged_cases = [(t, c) for t, c in tagged_cases if not (isinstance(c, dict) and c.get("dom") == "directed")]
-    dviol = []
+    dviol, dties = [], []
     for tag, case in directed:
         res = _run_directed(P, case)
         acc["evaluations"] += 1
         acc["by_tag"][tag] += 1
         acc["keys"].add(("directed", case.get("name"), repr(sorted((k, repr(v)) for k, v in case.items()))))
         acc["dist"]["directed:" + str(case.get("name"))] += 1
+        if res.get("hook"):
+            dties.append({"tag": tag, "case": case, "impl": "the harness's hook into the library is gone: " + res["hook"], "model": "scenario not run"})
         if res.get("fails"):
             dviol.append({"tag": tag, "case": case, "fails": res["fails"], "cls": res.get("cls", "unclassified"), "impl": res,
                           "model": None, "tie_ok": True})
     if not tagged_cases:
-        return dviol, []
+        return dviol, dties
     v_, t_ = _evaluate_modelled(P, pid, tagged_cases, workers, acc)
-    return dviol + v_, t_
+    return dviol + v_, dties + t_
 
 
 def _evaluate_modelled(P, pid, tagged_cases, workers, acc):
@@ -103,6 +120,9 @@ def _evaluate_modelled(P, pid, tagged_cases, workers, acc):
             raise common.Infra(io["infra"])
         acc["evaluations"] += 1
         acc["by_tag"][tag] += 1
+        if "hook" in io:
+            tie_breaks.append({"tag": tag, "case": case, "impl": "the harness's hook into the library is gone: " + io["hook"], "model": "not compared"})
+            continue
         if "crash" in io:
             violations.append({"tag": tag, "case": case, "fails": ["running the case on the implementation did not complete: %s" % io["crash"]],
                                "cls": "unclassified", "impl": io, "model": mo, "tie_ok": False})
@@ -148,6 +168,8 @@ def still_fails(P, case):
     mo = mos if expand else mos[0]
     io = _run_impl_guarded(P, case)
     if "infra" in io:
+        return None
+    if "hook" in io:
         return None
     if "crash" in io:
         return {"case": case, "fails": ["running the case on the implementation did not complete: %s" % io["crash"]], "cls": "unclassified",
